@@ -875,3 +875,11 @@ def _sub_mul_assign(ip, st, t, a, rt):
     ref = a[0]
     I.write_lv(ref.lv, as_rf(deref(ref)) - as_rf(deref(a[1])) * as_rf(deref(a[2])))
     return I.tup()
+
+
+@regx(r'^std::array::<impl std::default::Default for \[T; .*\]>::default$')
+def _array_default(ip, st, t, a, rt):
+    m = re.match(r'^\[(f64|f32|usize|u8|u16|u32|u64|i8|i16|i32|i64|isize); (\d+)\]$', (rt or '').strip())
+    if not m or int(m.group(2)) > 16:
+        return NotImplemented
+    return I.arr([RF.const(0)] * int(m.group(2)))
